@@ -8,6 +8,7 @@ use core::future::Future;
 verus! {
 pub type Arc<T> = T;      // Arc<T> is transparent for sequential reasoning (R13)
 //@include prelude/bytes.rs
+//@include prelude/conv.rs
 //@include prelude/hmap.rs
 //@include prelude/alloc.rs
 //@include prelude/duration.rs
@@ -141,7 +142,7 @@ pub open spec fn zip(c: Option<Comp>, plain: Seq<u8>) -> Option<Seq<u8>> { match
 //@end
 
 // the reply dispatcher (body of the task spawned by poll_replies)
-//@fn client/src/streams/request_reply/requestor.rs :: - :: poll_replies [props=C04] [spawn_body] [nodecreases]
+//@fn client/src/streams/request_reply/requestor.rs :: - :: poll_replies [props=C04] [spawn_body] [nodecreases] [as=poll_replies__task_body]
     ensures true,
 //@hint before "if let Ok(req_id) = str_parse_u32"
                     let ghost v0 = lock.view();
@@ -151,6 +152,23 @@ pub open spec fn zip(c: Option<Comp>, plain: Seq<u8>) -> Option<Seq<u8>> { match
                                 assert(v0.contains_key(req_id) && pending == v0[req_id]);                           // [C04.reply_dispatched_by_its_id]
                                 assert(lock.view() == v0.remove(req_id));                                          // [C04.other_pending_requests_untouched]
                             }
+//@end
+
+// poll_replies itself = tokio::spawn(<the body verified above>): ASSUMED to start a task that reads `read_half` and dispatches into
+// `pending_requests` (ghost: reader_bound)
+pub uninterp spec fn reader_bound(r: SharedReadHalf, p: SharedPendingRequests) -> bool;
+#[verifier::external_body] pub fn poll_replies(read_half: SharedReadHalf, pending_requests: SharedPendingRequests) ensures reader_bound(read_half, pending_requests) { unimplemented!() }
+#[verifier::external_body] pub struct BiStreamOpen { _p: u8 }
+impl<E, D, ReqItem, ResItem> Requestor<E, D, ReqItem, ResItem> {
+    // a requestor is usable when a task reads the replies of the stream it writes to
+    pub open spec fn wf(&self) -> bool { reader_bound(self.read_half, self.pending_requests) }
+    #[verifier::external_body] pub fn split_stream(stream: BiStreamOpen) -> (r: (SharedWriteHalf, SharedReadHalf)) { unimplemented!() }
+}
+//@rename client/src/streams/request_reply/requestor.rs :: BiStream => BiStreamOpen
+//@fn client/src/streams/request_reply/requestor.rs :: KeepAliveStream for Requestor :: on_reconnect [props=C12 C04]
+    ensures
+        final(self).wf(),                                                                                          // [C12.reply_reader_rebound_after_reconnect]
+        final(self).pending_requests == old(self).pending_requests,
 //@end
 
 // ------------------------------------------------------------------------------------------
